@@ -77,6 +77,9 @@ def long_chains(tier):
             for b in KINDS_W:
                 if not (a == b == "sock"):
                     hs.append(chain([a, b], [(1, "R"), (2, "W")], n))
+    # limit + 1 nested socket writes under the poller, then a read on a regular file: the second symptom of the
+    # known regular-file finding (C14/depth/reg) shows in every tier
+    hs.append(chain(["sock", "reg"], [(1, "W")] * 65 + [(2, "R")], 66))
     return hs
 
 
